@@ -1,16 +1,16 @@
 SPECIFICATION Spec
 CONSTANTS
-  Backends = {"responsive", "silent", "closed"}
+  Backends = {"responsive", "silent"}
   MayClose = TRUE
   WithSession = TRUE
   WithRefresh = TRUE
   FixSessionWait = TRUE
   FixRefreshWait = TRUE
-  FixProcQuit = FALSE
-  FixUpstreamQuitFirst = FALSE
-  FixSignalBeforeWait = FALSE
-  ClientQCap = 4
-  NReq = 3
+  FixProcQuit = TRUE
+  FixUpstreamQuitFirst = TRUE
+  FixSignalBeforeWait = TRUE
+  ClientQCap = 2
+  NReq = 2
   SessQCap = 1
   MaxRounds = 2
 INVARIANTS TypeOK NoStuckStop AfterStopAllReleased
